@@ -321,6 +321,17 @@ func (g *docGen) extras(pairs [][2]any, n int) [][2]any {
 			}
 		}
 	}
+	if g.pick(8) == 0 {
+		// an unknown key that differs from a typed field's key in letter case only: keys are matched exactly
+		k := []string{"Label", "Key", "LABEL", "kEY", "Name", "Identifier"}[g.pick(6)]
+		have := false
+		for _, q := range pairs {
+			have = have || q[0] == k
+		}
+		if !have {
+			pairs = append(pairs, [2]any{k, g.str("label")})
+		}
+	}
 	for i := 0; i < n; i++ {
 		pairs = append(pairs, [2]any{g.str("key"), g.anyValue(0)})
 	}
